@@ -235,7 +235,7 @@ fn case_policy(out: &mut CaseOut, seed: u64, idx: u64) {
 
 fn case_table(out: &mut CaseOut, seed: u64, idx: u64) {
     let mut rng = Rng::new(mix(&[seed, idx], "c14-table"));
-    let family = KeyFamily::ALL[(idx % 5) as usize];
+    let family = KeyFamily::ALL[(idx % 6) as usize];
     // layouts: many blocks per 2 KiB filter range (tiny blocks), or one block spanning several
     // ranges (values of several KiB with a large block size)
     let layout = idx % 3;
@@ -376,7 +376,7 @@ impl FilterPolicy for VersionedPolicy {
 /// still be found.
 fn case_foreign_policy(out: &mut CaseOut, seed: u64, idx: u64) {
     let mut rng = Rng::new(mix(&[seed, idx], "c14-foreign"));
-    let family = KeyFamily::ALL[(idx % 5) as usize];
+    let family = KeyFamily::ALL[(idx % 6) as usize];
     let block = *rng.pick(&[64usize, 256, 1024, 4096]);
     let nkeys = rng.range(20, 300) as usize;
     let pool = gen::key_pool(&mut rng, family, nkeys);
